@@ -1,7 +1,5 @@
 //! E1: virtual-transport simulator around the real `Connection` and `CipherStream`.
-mod alloc;
-mod sim;
-mod util;
+pub use vsim::{alloc, sim, util};
 mod c01;
 mod c02;
 mod c03;
